@@ -221,7 +221,8 @@ PLANS = {
                      G("seeks", 32, 800, "TraceCursor", "TraceCursor_C16.cfg"),
                      G("big", 16, 200, "TraceCursor", "TraceCursor_C16.cfg")],
                 mc=[MC("MCCursor_t15", "MCCursor_t15_fixed.cfg", workers=8),
-                    MC("MCCursor_t50", "MCCursor_t50_fixed.cfg", workers=8),
+                    MC("MCCursor_t59", "MCCursor_t59_fixed.cfg", workers=8),
+                    MC("MCCursor_t50", "MCCursor_t50_fixed.cfg", workers=8, quick=False),
                     MC("MCCursor_t9", "MCCursor_t9_fixed.cfg", workers=8, quick=False, timeout=7200)]),
     "C06": dict(level="model_checking", assumptions=TRUST + ["values of merge calls / outputs are named (source, position) by exact byte equality with the values the sources hold"],
                 mc=[MC("MCMerger", "MCMerger.cfg", workers=8), MC("MCMerger", "MCMerger_4x3.cfg", workers=8),
@@ -298,11 +299,12 @@ PLANS = {
                      # the same with debug assertions compiled out (a release build of grenad)
                      G("unsorted", 600, 10000, "TraceLayout", "TraceLayout_C18.cfg", release=True)]),
     "C03": dict(level="model_checking", assumptions=TRUST,
-                mc=[MC("MCCursor_t50", "MCCursor_t50_asfound.cfg", workers=8, expect="fail:Refines"),
+                mc=[MC("MCCursor_t59", "MCCursor_t59_asfound.cfg", workers=8, expect="fail:Refines"),
+                    MC("MCCursor_t50", "MCCursor_t50_asfound.cfg", workers=8, expect="fail:Refines", quick=False),
                     MC("MCCursor_t9", "MCCursor_t9_fixed.cfg", workers=8, quick=False, timeout=7200),
                     MC("MCCursor_t48", "MCCursor_t48_fixed.cfg", workers=8, quick=False, timeout=7200)],
                 gen=[G("history", 160, 6000, "TraceCursor", "TraceCursor.cfg"),
                      # exhaustive exploration of the implementation's own reachable cursor states (hook H1)
                      G("explore", 9, 9, "TraceCursor", "TraceCursor.cfg", timeout=7200, tlc_timeout=7200)],
-                extra=[cursor_model([15, 50], [0, 2, 15, 50], 200, 12)]),
+                extra=[cursor_model([15, 59], [0, 2, 15, 59, 50], 200, 12)]),
 }
